@@ -8,6 +8,7 @@ package hx
 
 import (
 	"github.com/golang/protobuf/proto"
+	"time"
 
 	pb "github.com/xuperchain/xupercore/bcs/ledger/xledger/xldgpb"
 	xctx "github.com/xuperchain/xupercore/kernel/common/xcontext"
@@ -85,12 +86,24 @@ func (s *SyncNet) PeerInfo() protos.PeerInfo       { return protos.PeerInfo{} }
 type SyncConsensus struct {
 	Refuse  map[string]int
 	Checked []string // string(block id) of every CheckMinerMatch call, in order
+	// OnCompete (optional) is signalled at every CompeteMaster call: the miner loop has finished its start-up
+	// synchronisation of state machine and ledger and asks whether it is its turn
+	OnCompete chan struct{}
 }
 
 // NewSyncConsensus returns a consensus that accepts everything.
 func NewSyncConsensus() *SyncConsensus { return &SyncConsensus{Refuse: map[string]int{}} }
 
-func (s *SyncConsensus) CompeteMaster(height int64) (bool, bool, error) { return false, false, nil }
+func (s *SyncConsensus) CompeteMaster(height int64) (bool, bool, error) {
+	if ch := s.OnCompete; ch != nil {
+		select {
+		case ch <- struct{}{}:
+		default:
+		}
+		time.Sleep(time.Millisecond) // never the producer: do not spin
+	}
+	return false, false, nil
+}
 
 func (s *SyncConsensus) CheckMinerMatch(_ xctx.XContext, block cctx.BlockInterface) (bool, error) {
 	id := string(block.GetBlockid())
